@@ -43,6 +43,10 @@ func (w *World) ghostType(name string) types.Type {
 		if ty, ok := convNames[s]; ok {
 			return ty
 		}
+		if s == "ref" {
+			// an object reference (pointer, map, ...): compared by identity only
+			return types.Typ[types.UnsafePointer]
+		}
 	}
 	return types.Typ[types.Int]
 }
